@@ -218,6 +218,21 @@ class State:
     def calls(self, pred=None):
         return [e for e in self.events if e['k'] == 'call' and (pred is None or pred(e))]
 
+    def entered(self, pred=None):
+        """Calls that were walked inline, in the shape of call events: the 'enter' event with 'ret' = the value the
+        matching 'leave' returned (None if the path never came back), 'inlined' = True, 'leave' = index of the leave."""
+        leaves = {e.get('enter'): e for e in self.events if e['k'] == 'leave' and e.get('enter') is not None}
+        out = []
+        for e in self.events:
+            if e['k'] == 'enter' and (pred is None or pred(e)):
+                lv = leaves.get(e['i'])
+                out.append(dict(e, ret=lv['ret'] if lv else None, inlined=True, leave=lv['i'] if lv else None))
+        return out
+
+    def calls_any(self, pred=None):
+        """opaque calls and calls walked inline, in path order"""
+        return sorted(self.calls(pred) + self.entered(pred), key=lambda e: e['i'])
+
     def cond_true(self, pred):
         """atoms assumed True that satisfy pred"""
         return [a for a, v in self.conds if v is True and pred(a)]
@@ -845,8 +860,8 @@ class Engine:
                 e = st.ev('call', name=name, path=path, gargs=gargs, args=tuple(args), ln=t.get('ln'), fn=fn, f=f, modelled=True, ret=None, vals=self.snap(st, args))
                 return m(self, st, f, args, k, e)
         if callee is not None and st.depth < self.max_depth and (callee.kind == 'Closure' or self.inline(callee)) and callee.dp != fn.dp:
-            st.ev('enter', name=name, path=path, gargs=gargs, args=tuple(args), ln=t.get('ln'), fn=fn, f=f, callee=callee)
-            return self.call_fn(st, callee, args, k, self._inst_map(callee, f))
+            en = st.ev('enter', name=name, path=path, gargs=gargs, args=tuple(args), ln=t.get('ln'), fn=fn, f=f, callee=callee, vals=self.snap(st, args))
+            return self.call_fn(st, callee, args, k, self._inst_map(callee, f), enter=en['i'])
         self.opaque(st, f, name, path, gargs, args, k, t, fn)
 
     def opaque(self, st, f, name, path, gargs, args, k, t, fn):
@@ -907,7 +922,7 @@ class Engine:
                 mp[g['name']] = ga[g['idx']]
         return mp or None
 
-    def call_fn(self, st, callee, args, k, sub=None):
+    def call_fn(self, st, callee, args, k, sub=None, enter=None):
         self.frames += 1
         frame = self.frames
         if sub is None and callee.kind == 'Closure':
@@ -921,7 +936,7 @@ class Engine:
 
         def ret(s, rv):
             s.depth -= 1
-            s.ev('leave', callee=callee, ret=rv)
+            s.ev('leave', callee=callee, ret=rv, enter=enter, outs=self.snap(s, args))
             k(s, rv)
         self.explore(st, callee, frame, 0, ret)
 
@@ -948,8 +963,8 @@ class Engine:
                 e = st.ev('call', name=f['name'], path=f['path'], gargs=item[3], args=tuple(args), ln=tt.get('ln'), fn=fn, f=f, modelled=True, ret=None)
                 return m(self, st, f, list(args), k, e)
         if callee is not None and st.depth < self.max_depth and (callee.kind == 'Closure' or self.inline(callee)):
-            st.ev('enter', name=f['name'], path=f['path'], gargs=item[3], args=tuple(args), ln=tt.get('ln'), fn=fn, f=f, callee=callee)
-            return self.call_fn(st, callee, list(args), k)
+            en = st.ev('enter', name=f['name'], path=f['path'], gargs=item[3], args=tuple(args), ln=tt.get('ln'), fn=fn, f=f, callee=callee, vals=self.snap(st, args))
+            return self.call_fn(st, callee, list(args), k, enter=en['i'])
         self.opaque(st, f, f['name'], f['path'], item[3], list(args), k, {'k': 'call', 'target': 0, 'ln': tt.get('ln')}, fn)
 
     def call_closure(self, st, cv, args, k, opaque=False, single=False):
